@@ -608,7 +608,7 @@ fn history<Ty: EdgeType, Ix: IndexType>(cx: &mut Cx, rng: &mut Rng, ixname: &str
             }
             13 => {
                 let live = m.live_nodes();
-                if live.len() >= 2 {
+                if live.len() >= 2 && !cx.skips("index_twice_mut") {
                     let (a, b) = (live[rng.below(live.len())], live[rng.below(live.len())]);
                     let (w1, w2) = (m.fresh_w(), m.fresh_w());
                     cx.log(|| format!("#{} index_twice_mut({}, {})", step, a, b));
